@@ -26,6 +26,7 @@ THOROUGH = QUICK + [
 ]
 # shapes with literal nodes / chains of dependent sources: used by the cache checks (C03 C05 C08 C09) only
 EXTRA = [
+    S("dep_source_2pred", 4, [(0, 2, D), (1, 2, D), (2, 3, A)], ["call", "call", "src", "store"], 3),
     S("lit_mid", 3, [(0, 1, D), (1, 2, A)], ["store", "lit", "store"], 2),
     S("lit_mid_src", 4, [(0, 1, A), (1, 2, D), (2, 3, A)], ["src", "store", "lit", "store"], 3),
     S("lit_dep_only", 4, [(0, 1, A), (1, 2, D), (2, 3, D)], ["src", "store", "lit", "store"], None),
